@@ -122,6 +122,9 @@ EXEC += ["open(file='x', unit=10, status='old')", "open(status='old', file=fn, u
          "read(fmt=*, unit=5) a", "read(iostat=ios, unit=5, fmt='(i3)') k", "write(fmt=*, unit=6) a", "write(iostat=ios, unit=6, fmt=*) a", "write(advance='no', fmt='(a)', unit=u) s",
          "inquire(exist=l, file='x')", "inquire(opened=o, unit=10)", "rewind(iostat=ios, unit=10)", "backspace(err=10, unit=10)", "endfile(iostat=ios, unit=10)", "flush(iostat=ios, unit=10)",
          "wait(iostat=ios, unit=10)", "deallocate(a, b, errmsg=msg, stat=ierr)", "call s(b=1, a=2)", "x = f(b=1, a=2)"]
+EXEC += ["call obj%arr(i + 1, 2)%method(a)", "call tab(k + 1, 2)%run()", "x = tab(k + 1, 2)%f(a, b)", "read(unit=u(i + 1, 2), fmt=*) a", "write(unit=lun(1, k), fmt=fm(2, 3)) a",
+         "print fmts(i + 1, 2), a", "open(unit=u(1, 2), file=names(i, j))", "if (m(i + 1, 2) > 0) call s(q(1, 2))", "where (msk(:, k + 1)) v(:, k + 1) = 0", "forall (i = lo(1, 2):hi(1, 2)) a(i) = 0",
+         "allocate(w(n(1, 2)), stat=st(1, 2))", "deallocate(w, stat=st(1, 2))", "nullify(pt(i + 1, 2)%p)", "pt(i + 1, 2)%p => tg(1:n(1, 2))", "goto (10, 20) sel(i + 1, 2)", "stop"]
 IFACE = ["procedure f", "module procedure f", "module procedure f, g", "procedure :: f", "procedure :: f, g", "module procedure :: f", "subroutine s(a)\ninteger a\nend subroutine s",
          "function f(x)\nreal x\nend function f"]
 FORMATS = ["a // a", "i3, /, /, a", "a, :, :, i2", "2/, a", "i2, 3x, /, /, /", "1x, i5", "i5", "f10.3", "a", "3(i2, 1x)", "'text'", "e12.4", "2i5", "a, /, a", "i5.3, es12.4", "l1, g10.3", "tr2, tl1, t10"]
